@@ -588,6 +588,23 @@ def corpus_sets():
         {"variant": "Calibrate", "name": None, "doc": "Calibrate", "sub": None, "args": [
             arg("calibration_profile_name", "opt", "str", long=True, optional=True, doc="Profile"), arg("x", "flag", "bool", short=True, doc="X"),
             arg("a_rather_long_positional_argument_name", "pos", "u8", doc="Long one"), arg("b", "pos", "str", optional=True, doc="Short one")]}]}})
+    # 20: fifteen commands in one enum (column widths over many names), names with upper-case letters, digits and dashes, one name a prefix of
+    #     another, an empty help title; flags that differ only in letter case, a long name equal to another field's generated name
+    many = [unit(v, doc=("Command %s." % v) if i % 3 else None) for i, v in enumerate(
+        ["Alpha", "Beta", "Gamma", "Delta", "Eps", "Zeta", "Eta", "Theta", "Iota", "Kappa", "Lam", "Mu"])]
+    many += [unit("Up", name="UP", doc="Upper"), unit("Led2", name="led-2x", doc="Second led"), unit("Led", name="led", doc="A led"),
+             {"variant": "Mix", "name": "mix-it", "doc": "Mixed flags", "sub": None, "args": [
+                 arg("verbose", "flag", "bool", short="v", long=True), arg("version", "flag", "bool", short="V", long="Version"),
+                 arg("name", "opt", "str", long="file", optional=True), arg("file", "opt", "str", long="name", optional=True), arg("what", optional=True)]}]
+    sets.append({"kind": "enum", "enum": {"title": "", "cmds": many}})
+    # 21: sub-commands nested three levels deep, options at every level, an optional sub-command at the innermost level, the same command
+    #     and option names re-used at different levels
+    l3 = {"title": "Leaf", "cmds": [unit("Show", doc="Show it"), {"variant": "Set", "name": None, "doc": "Set it", "sub": None, "args": [arg("value", "pos", "u8"), arg("force", "flag", "bool", short=True)]}]}
+    l2 = {"title": None, "cmds": [{"variant": "Port", "name": None, "doc": "A port", "args": [arg("index", "opt", "u8", long=True, short=True, optional=True)], "sub": {"optional": True, "enum": l3, "field": "command"}},
+                                  unit("Show", doc="Level two show")]}
+    l1 = {"title": None, "cmds": [{"variant": "Dev", "name": None, "doc": "A device", "args": [arg("index", "opt", "str", long=True, short=True, optional=True), arg("force", "flag", "bool", long=True)], "sub": {"optional": False, "enum": l2, "field": "cmd"}},
+                                  unit("Show", doc="Top show")]}
+    sets.append({"kind": "enum", "enum": l1})
     # 19: signed positionals of every width (a negative value can only be given after `--`): both ends of every range
     sets.append({"kind": "enum", "enum": {"title": None, "cmds": [
         {"variant": "Move", "name": None, "doc": "Move", "sub": None, "args": [arg("step", "pos", "i8"), arg("fine", "pos", "i16", optional=True), arg("fast", "flag", "bool", long=True)]},
